@@ -113,8 +113,8 @@ def c02(rep, tier):
             g = g or M.cfg(f)
             ev = g.ev(e)
             inst = '%s: %s' % (f['q'], show(e))
-            if f['q'] != 'ParseState::match':
-                B.violation(inst, 'the token cursor is advanced outside ParseState::match', '%s:%d' % (rel(lib, f['file']), e['loc'][0]))
+            if f.get('rec') != 'ParseState':
+                B.violation(inst, 'the token cursor is advanced outside the ParseState cursor methods', '%s:%d' % (rel(lib, f['file']), e['loc'][0]))
                 continue
             guarded = False
             for cond, label, cn in g.guards_of(ev):
@@ -199,11 +199,12 @@ def c02(rep, tier):
             ev = g.ev(e)
             col = strip_casts(e['args'][0])
             good = False
+            colx = show(g.expanded(col))
             for cond, label, cn in g.guards_of(ev):
                 c = strip_casts(cond)
-                if label is False and c.get('k') == 'bin' and c['op'] in ('<=',) and 'size' in show(c['l']) and mm.same_var(c['r'], col):
+                if label is False and c.get('k') == 'bin' and c['op'] in ('<=',) and 'size' in show(c['l']) and (mm.same_var(c['r'], col) or show(strip_casts(c['r'])) == colx):
                     good = True
-                if label is True and c.get('k') == 'bin' and c['op'] in ('<',) and 'size' in show(c['r']) and mm.same_var(c['l'], col):
+                if label is True and c.get('k') == 'bin' and c['op'] in ('<',) and 'size' in show(c['r']) and (mm.same_var(c['l'], col) or show(strip_casts(c['l'])) == colx):
                     good = True
             okall = okall and good
         B.check(okall, 'LRParser::parse: action[s][a]', 'all %d subscripts dominated by the column-bound test' % len(subs),
@@ -216,7 +217,17 @@ def c02(rep, tier):
     else:
         mlen = re.search(r'\[(\d+)\]', tm['cty'])
         lits = [x['v'] for x in walk_all_exprs(ts['body']) if x.get('k') == 'int' and x['v'] > 1]
-        B.check(bool(mlen) and lits and max(lits) == int(mlen.group(1)) and any('>=' in show(s['c']) for s in walk_stmts(ts['body']) if s['k'] == 'if'),
+        lits += [g2['const_value'] for x in walk_all_exprs(ts['body']) if x.get('k') == 'ref' and x.get('dk') == 'global'
+                 for g2 in [lib.globals.get(x.get('q'))] if g2 and g2.get('const_value') is not None and g2['const_value'] > 1]
+        by_size = any(x.get('k') == 'call' and (x.get('callee') or '') in ('std::size', 'std::ssize') and 'token_map' in show(x) for x in walk_all_exprs(ts['body'])) or \
+            any(x.get('k') == 'sizeof' for x in walk_all_exprs(ts['body']))
+        if not lits and by_size and mlen:
+            lits = [int(mlen.group(1))]
+        if not lits and not by_size:
+            B.unknown('token_string: bound', 'the bound of the table index was not recognised')
+            lits = None
+        if lits is not None:
+          B.check(bool(mlen) and lits and max(lits) == int(mlen.group(1)) and any(('>=' in show(s['c']) or '<' in show(s['c'])) for s in walk_stmts(ts['body']) if s['k'] == 'if'),
                 'token_string: bound', 'index tested against %s, the length of token_map' % (mlen.group(1) if mlen else '?'),
                 'bound %s differs from the table length %s' % (lits, mlen.group(1) if mlen else '?'), '%s:%d' % (rel(lib, ts['file']), ts['loc'][1]))
 
@@ -310,8 +321,14 @@ def c02(rep, tier):
     clr = lib.fn('Theo::AST::clear')
     dels = [x for x in walk_all_exprs(clr['body']) if x.get('k') == 'delete']
     loops = [s for s in walk_stmts(clr['body']) if s['k'] == 'rangefor' and field_chain(s['range'])[1][-1:] == ['all_allocated_nodes']]
+    loops += [s for s in walk_stmts(clr['body']) if s['k'] == 'for' and s.get('c') is not None and 'all_allocated_nodes.size()' in show(s['c']).replace('this->', '')
+              and s.get('init') and s['init']['k'] == 'decl' and strip_casts(s['init']['vars'][0].get('init')).get('v') == 0 and '++' in show(s.get('inc'))]
     clears = [x for x in walk_all_exprs(clr['body']) if is_call(x, '::clear') and field_chain(x['obj'])[1][-1:] == ['all_allocated_nodes']]
-    D.check(len(dels) == 1 and len(loops) == 1 and len(clears) == 1, 'AST::clear releases every node', 'delete for each registered node, then the list is emptied (no double free)',
+    in_loop = len(loops) == 1 and len(dels) == 1 and any(x is dels[0] for x in walk_all_exprs(loops[0]['body']))
+    if len(dels) >= 1 and not in_loop and len(loops) != 1:
+        D.unknown('AST::clear releases every node', 'the release loop has a shape that is not recognised')
+    else:
+      D.check(len(dels) == 1 and in_loop and len(clears) == 1, 'AST::clear releases every node', 'delete for each registered node, then the list is emptied (no double free)',
             'release loop not recognised', '%s:%d' % (rel(lib, clr['file']), clr['loc'][1]))
     comp = lib.fn('Theo::compile')
     rep.analysed(comp)
@@ -384,21 +401,33 @@ def c02(rep, tier):
             '%s:%d' % (rel(lib, genf['file']), genf['loc'][1]))
     pf = lib.fn('Theo::parse')
     gp = M.cfg(pf)
-    sets_true = [ev for ev in gp.events if ev.e.get('k') == 'assign' and field_chain(ev.e['l'])[1][-1:] == ['parsed_correctly'] and strip_casts(ev.e['r']).get('v') is True]
-    sets_false = [ev for ev in gp.events if ev.e.get('k') == 'assign' and field_chain(ev.e['l'])[1][-1:] == ['parsed_correctly'] and strip_casts(ev.e['r']).get('v') is False]
-    okp = len(sets_true) == 1 and len(sets_false) >= 1 and gp.on_all_paths(sets_false[0]) and gp.dominates(sets_false[0], sets_true[0])
-    guard_ok = False
-    if okp:
-        for cond, label, cn in gp.guards_of(sets_true[0]):
-            c = show(cond)
-            if label is True and ('errors.size() == 0' in c or 'errors.empty()' in c):
-                guard_ok = True
-        # after the merge of the three error vectors: every push into a.errors from another vector precedes
-        merges = [ev for ev in gp.calls() if is_call(ev.e, '::push_back') and field_chain(ev.e['obj'])[1][-1:] == ['errors'] and ev.node.id in gp.reach.get(ev.node.id, set())]
-        late = [ev for ev in gp.calls() if is_call(ev.e, '::push_back') and field_chain(ev.e['obj'])[1][-1:] == ['errors'] and gp.can_follow(sets_true[0], ev)]
-        guard_ok = guard_ok and not late
-    E.check(okp and guard_ok, 'parse: parsed_correctly', 'false initially; true only under errors.size() == 0, after the last error was merged',
-            'parsed_correctly can be true although errors exist', '%s:%d' % (rel(lib, pf['file']), pf['loc'][1]))
+    asg = [ev for ev in gp.events if ev.e.get('k') == 'assign' and field_chain(ev.e['l'])[1][-1:] == ['parsed_correctly']]
+    sets_true = [ev for ev in asg if strip_casts(ev.e['r']).get('v') is True]
+    sets_false = [ev for ev in asg if strip_casts(ev.e['r']).get('v') is False]
+    sets_expr = [ev for ev in asg if strip_casts(ev.e['r']).get('k') != 'bool']
+
+    def is_noerr(c):
+        t = show(strip_casts(c)).replace(' ', '')
+        return ('errors.size()==0' in t or 'errors.empty()' in t) and not t.startswith('!')
+    late_pushes = lambda ev0: [ev for ev in gp.calls() if is_call(ev.e, '::push_back') and field_chain(ev.e['obj'])[1][-1:] == ['errors'] and gp.can_follow(ev0, ev)]
+    if len(sets_expr) == 1 and not sets_true:
+        # parsed_correctly = errors.empty()  (computed once, after the last error was added)
+        ev0 = sets_expr[0]
+        okp = is_noerr(ev0.e['r']) and gp.on_all_paths(ev0) and not late_pushes(ev0)
+        # merges through helper calls must precede as well
+        helpers_after = [ev for ev in gp.calls() if ev.e.get('callee_lambda_id') and gp.can_follow(ev0, ev)]
+        E.check(okp and not helpers_after, 'parse: parsed_correctly', '= errors.empty(), evaluated after the last error was merged',
+                'parsed_correctly is computed from %s or before all errors are merged' % show(ev0.e['r']), '%s:%d' % (rel(lib, pf['file']), pf['loc'][1]))
+    else:
+        okp = len(sets_true) == 1 and len(sets_false) >= 1 and gp.on_all_paths(sets_false[0]) and gp.dominates(sets_false[0], sets_true[0])
+        guard_ok = False
+        if okp:
+            for cond, label, cn in gp.guards_of(sets_true[0]):
+                if label is True and is_noerr(cond):
+                    guard_ok = True
+            guard_ok = guard_ok and not late_pushes(sets_true[0])
+        E.check(okp and guard_ok, 'parse: parsed_correctly', 'false initially; true only under errors.size() == 0, after the last error was merged',
+                'parsed_correctly can be true although errors exist', '%s:%d' % (rel(lib, pf['file']), pf['loc'][1]))
     ga = lib.fn('gen_ast', unit_suffix='gen.cpp')
     gga = M.cfg(ga)
     disp = [ev for ev in gga.calls() if (ev.e.get('callee') or '').startswith('dispatch')]
@@ -559,6 +588,14 @@ def nonempty_reason(M, lib, f, g, ev, seq, k_needed):
             return 'guarded by !%s.empty()' % sname
         if label is False and txt == '%s.empty()' % sn and k_needed == 1:
             return 'guarded by %s.empty() == false' % sname
+        # size tests that are top-level conjuncts of a true guard
+        if label is True and c.get('k') == 'bin' and c['op'] == '&&':
+            for y in walk_expr(c):
+                if y.get('k') == 'bin' and y['op'] in ('==', '>=', '>') and show(strip_casts(y['l'])).replace(' ', '').replace('(int)', '') == sn + '.size()' and \
+                        strip_casts(y['r']).get('k') == 'int' and conj_of(c, y):
+                    n2 = strip_casts(y['r'])['v']
+                    if (y['op'] == '==' and n2 >= k_needed) or (y['op'] == '>=' and n2 >= k_needed) or (y['op'] == '>' and n2 + 1 >= k_needed):
+                        return 'guarded by a conjunct %s.size() %s %d' % (sname, y['op'], n2)
         if c.get('k') == 'bin' and sn + '.size()' in txt:
             l, r = strip_casts(c['l']), strip_casts(c['r'])
             if r.get('k') == 'int' and show(l).replace(' ', '').replace('(int)', '') == sn + '.size()':
